@@ -685,11 +685,21 @@ func (s *vfSM) sweepEvict(e vfCB, now time.Time, vs *[]*vfViol, midSweep bool) {
 	if midSweep {
 		cls = "rewritten-during-sweep"
 	}
+	// an entry that expiry processing removes although its TTL has not elapsed (or it has none) also breaks C07 ("the TTL
+	// alone never hides an item before that instant") and, where everything fits, C06 ("stays retrievable until ...")
+	also := "C07"
+	if s.fitsAlways() {
+		also = "C07,C06"
+	}
 	switch {
 	case ent.exp.IsZero():
-		s.add(vs, vfV("C14", "sweep-removed-entry-without-ttl/"+cls, "expiry processing removed value %d (key %d) whose current write carries no TTL", e.tok, e.key))
+		v := vfV("C14", "sweep-removed-entry-without-ttl/"+cls, "expiry processing removed value %d (key %d) whose current write carries no TTL", e.tok, e.key)
+		v.Also = also
+		s.add(vs, v)
 	case ent.exp.After(now):
-		s.add(vs, vfV("C14", "sweep-removed-unexpired/"+cls, "expiry processing removed value %d (key %d) at %v although its current expiration is %v", e.tok, e.key, now.Format("15:04:05.000000000"), ent.exp.Format("15:04:05.000000000")))
+		v := vfV("C14", "sweep-removed-unexpired/"+cls, "expiry processing removed value %d (key %d) at %v although its current expiration is %v", e.tok, e.key, now.Format("15:04:05.000000000"), ent.exp.Format("15:04:05.000000000"))
+		v.Also = also
+		s.add(vs, v)
 	}
 	cost, ok := s.delAcct(e.key)
 	if ok && cost != e.cost {
